@@ -124,11 +124,24 @@ def gen_cbthrow(rng, count):
     catch branch serves failures of the awaited operation only); every timing, outcome and allocator"""
     cases = []
     for i in range(count):
-        header = "cb cbawait %s %s" % (rng.choice(TYPES + ["intref"]), rng.choice(["heap", "stor"]))
+        # callback_await in all its spellings (they share callback_await_coro); the owned-awaitable spelling most often
+        header = "cb %s %s %s" % (rng.choice(("cbawait",) * 3 + CBAWAIT), rng.choice(TYPES + ["intref"]), rng.choice(["heap", "stor"]))
         mode, body = timing_bodies(rng, header)
+        if i % 2 == 0:
+            # the path the repair touches is "the callback throws while it holds a VALUE": every invocation delivers one
+            body = [" ".join(w[:w.index("exc")] + ["value", str(10 + int(w[-1]))]) if "exc" in w and w[0] != "fthrow"
+                    else " ".join(w[:-1] + ["value", "17"]) if w[-1] == "drop" else " ".join(w) for w in (l.split() for l in body)]
         body.insert(1, "cbthrow")
         n = sum(1 for l in body if l.split()[0] in ("g", "r", "d"))
         cases.append(make_case(header, body, random_sched(rng, n, rng.randint(0, 7 * n))))
+    return cases
+
+
+def gen_exhaustive_cbthrow(length):
+    """all schedules of registrar vs one resolver for callback_await with a throwing callback, every outcome and allocator"""
+    cases = gen_exhaustive(["cb cbawait int heap", "cb cbawait void stor"], length)
+    for c in cases:
+        c["lines"].insert(2, "cbthrow")
     return cases
 
 
@@ -418,10 +431,10 @@ class CallbackSuite(Suite):
     def gen_cases0(self, rng, tier):
         if tier == "quick":
             return (gen_sequential() + gen_exhaustive(HEADERS, 6) + gen_exhaustive(CORE, 8) + gen_exhaustive(HEADERS, 5, with_dtor=True)
-                    + gen_random(rng, 4000) + gen_cbthrow(rng, 400)
+                    + gen_random(rng, 4000) + gen_cbthrow(rng, 400) + gen_exhaustive_cbthrow(6)
                     + gen_reuse_sequential(REUSABLE, rng) + gen_reuse_exhaustive(CORE_REUSE, 5) + gen_reuse_random(rng, 2500))
         return (gen_sequential() + gen_exhaustive(HEADERS, 8) + gen_exhaustive(HEADERS, 7, with_dtor=True)
-                + gen_exhaustive(CORE, 10) + gen_exhaustive3(rng, HEADERS, 8, 24) + gen_random(rng, 40000) + gen_cbthrow(rng, 3000)
+                + gen_exhaustive(CORE, 10) + gen_exhaustive3(rng, HEADERS, 8, 24) + gen_random(rng, 40000) + gen_cbthrow(rng, 3000) + gen_exhaustive_cbthrow(9)
                 + gen_reuse_sequential(REUSABLE, rng, 20) + gen_reuse_exhaustive(REUSABLE, 6) + gen_reuse_random(rng, 25000))
 
     def distinct_key(self, case, out):
